@@ -4,6 +4,7 @@ kitty tables is what the frame restricted to the kitty images does: sixel placem
 write the tables ignore, and the diff of `render` commutes with restricting both lists to the kitty images.
 -/
 import VaxisModel.Lemmas.KittyTerm
+import VaxisModel.Lemmas.KittyData
 
 namespace VaxisModel.Lemmas.KittyMixed
 open VaxisModel.Model.KittyTerm VaxisModel.Model.Placements VaxisModel.Spec.Images VaxisModel.Gen.ImageConsts
@@ -134,5 +135,46 @@ theorem runK_inv (kitty : Nat → Bool) (ops : List WOp) : ∀ w : World, InvK k
       simp only
       rw [renderGen_std]
       exact hf.2
+
+/-! ### image data in mixed histories -/
+
+open VaxisModel.Lemmas.KittyData in
+theorem stepK_DI (kitty : Nat → Bool) (w : World) (op : WOp) (h : ∀ id, DataInv w id) : ∀ id, DataInv (w.stepK kitty op) id := by
+  cases op with
+  | resize i ok =>
+    cases ok
+    · exact h
+    · intro id
+      show DI (update w.imgs i (resizeGen (w.imgs i) w.serial)) w.term (update w.latest i (some w.serial)) id
+      unfold resizeGen
+      rw [resizeGen_std, resizeWith_std]
+      by_cases hid : id = i
+      · subst hid
+        right
+        rw [update_same, update_same]
+        exact ⟨rfl, by simp, fun hn => by simp at hn⟩
+      · unfold DI
+        rw [update_other _ _ _ _ hid, update_other _ _ _ _ hid]
+        exact h id
+  | draw p => exact h
+  | clear => exact h
+  | render =>
+    intro id
+    show DI (emit kitty kittyWriteBody w.imgs _).1 (w.term.run (emit kitty kittyWriteBody w.imgs _).2) w.latest id
+    rw [emit_congr kitty _ _ writeGen_std, (emit_kitty kitty stdWriteBody _ w.imgs w.term).1,
+      (emit_kitty kitty stdWriteBody _ w.imgs w.term).2]
+    exact emit_DI w.latest _ w.imgs w.term h id
+  | refresh =>
+    intro id
+    show DI (emit kitty kittyWriteBody w.imgs _).1 (w.term.run (emit kitty kittyWriteBody w.imgs _).2) w.latest id
+    rw [emit_congr kitty _ _ writeGen_std, (emit_kitty kitty stdWriteBody _ w.imgs w.term).1,
+      (emit_kitty kitty stdWriteBody _ w.imgs w.term).2]
+    exact emit_DI w.latest _ w.imgs w.term h id
+
+open VaxisModel.Lemmas.KittyData in
+theorem runK_data (kitty : Nat → Bool) (ops : List WOp) : ∀ w : World, (∀ id, DataInv w id) → ∀ id, DataInv (w.runK kitty ops) id := by
+  induction ops with
+  | nil => intro w h; exact h
+  | cons op rest ih => intro w h; exact ih (w.stepK kitty op) (stepK_DI kitty w op h)
 
 end VaxisModel.Lemmas.KittyMixed
